@@ -27,7 +27,9 @@ def accepted(desc):
 
 
 SEGS = ['java', 'lang', 'language', 'javax', 'langX', 'annotation', 'ref', 'reflect', 'invoke', 'a', 'v', 'g', 'l', 'n', 'j',
-        'String', 'Object', 'Foo', 'Thread$State', 'Lfoo', 'URL', 'MySQL', 'LL', 'L', 'lang2', 'langx', 'gnal', 'nav', 'jav', 'lan', 'x1', '_', 'va', 'ng', 'la', 'java$', 'Ljava', 'util', 'io', 'android', 'R$id']
+        'String', 'Object', 'Foo', 'Thread$State', 'Lfoo', 'URL', 'MySQL', 'LL', 'L', 'lang2', 'langx', 'gnal', 'nav', 'jav', 'lan', 'x1', '_', 'va', 'ng', 'la', 'java$', 'Ljava', 'util', 'io', 'android', 'R$id',
+        # every SimpleNameChar is legal, not only identifier characters: D8/R8 synthetic and companion classes, package-info, symbols
+        '-$$Lambda$Shape$1', 'Fn$-CC', 'package-info', 'q-CC', '\u00a2x']
 
 
 def gen_desc(rng):
